@@ -211,3 +211,12 @@ def compromise(game, facet: str) -> None:
     if sw is not None and sw.operating_state.name == "RUNNING" and sw.health_state_actual in (SoftwareHealthState.GOOD, SoftwareHealthState.FIXING):
         # through the software's own `compromise` request (what a red application's success amounts to)
         game.simulation.apply_request(["network", "node", node, "service" if facet == "svc" else "application", comp, "compromise"])
+
+
+def states_along(g: Dict[str, Any], episode: List[str]) -> List[State]:
+    """The abstract states the model passes through along one episode (state AFTER each action)."""
+    cur, out = g["init"], []
+    for a in episode:
+        cur = g["edges"][(cur, a)]
+        out.append(cur)
+    return out
